@@ -90,7 +90,11 @@ func (t Translator) objFromArraiDict(v rel.Dict) (map[string]interface{}, error)
 		if err != nil {
 			return nil, err
 		}
-		maps[keydata.(string)] = valuedata
+		keystring, isString := keydata.(string)
+		if !isString {
+			return nil, errors.Errorf("FromArrai: dict key %v must be a string, not %s", key, rel.ValueTypeAsString(key))
+		}
+		maps[keystring] = valuedata
 	}
 	return maps, nil
 }
